@@ -97,8 +97,7 @@ TrAlarm ==
                 /\ rs' = IF begin /\ Ev.err = "" THEN OnAlarm(rs, ObsAlarm(Ev.o))
                          ELSE [rs EXCEPT !.alarm = ObsAlarm(Ev.o), !.replay = <<>>]
         /\ obs' = [kind |-> "Alarm", pre |-> rs, hib |-> hi, o |-> Ev.o, begin |-> begin, fired |-> Ev.fired, err |-> Ev.err, out |-> Outs(Ev),
-                   dec |-> Decision(Ev), cert |-> c, agree |-> (Decision(Ev) => (Ev.dec.own = c.epoch /\ (Has(store, c.inst) => Get(store, c.inst) = c))),
-                   prevEpoch |-> IF rs.cur = mf.init THEN bootE ELSE IF Has(store, rs.cur - 1) THEN Get(store, rs.cur - 1).epoch ELSE -1]
+                   dec |-> Decision(Ev), cert |-> c, agree |-> (Decision(Ev) => (Ev.dec.own = c.epoch /\ (Has(store, c.inst) => Get(store, c.inst) = c)))]
   /\ hi' = PMax(hi, Ev.o.prog)
   /\ UNCHANGED <<mf, up, head, now, wal, bootE>>
 TrBcast == /\ IsEvent("Bcast")
@@ -121,11 +120,44 @@ TrDeliver ==
 TrCrash == /\ IsEvent("Crash") /\ up' = FALSE /\ rs' = Dead /\ obs' = [kind |-> "Crash"]
            /\ UNCHANGED <<mf, store, head, now, wal, bootE, hi>>
 
+\* ------------------------------------------------------------------ the real Start and event loop
+\* the loop has settled: an alarm that was due has been taken (the instance begun, or the participant's own
+\* timeout handled - the alarm it arms then is its business and is bound from the observation)
+Settled(r, t, o) == IF r.alarm # -1 /\ t >= r.alarm
+                      THEN (IF ~r.inInst /\ o.begun THEN OnAlarm(r, ObsAlarm(o)) ELSE [r EXCEPT !.alarm = ObsAlarm(o)])
+                      ELSE r
+\* host.go:310-316 (the second goroutine of Start): selfMessages below the newest certificate's instance are dropped
+FinalizeTrim(S, st) == IF st = <<>> THEN S ELSE {m \in S : m.inst >= Latest(st).inst}
+TrLStart ==
+  /\ IsEvent("LStart")
+  /\ LET r1 == OnStart(wal, store, head, now, mf) IN
+       /\ rs' = [Settled(r1, now, Ev.o) EXCEPT !.self = FinalizeTrim(@, store)]
+       /\ obs' = [kind |-> "LStart", pre |-> Fresh(wal), hib |-> hi, o |-> Ev.o, replay |-> MapM(Ev.replay), mreplay |-> r1.replay,
+                  queued |-> MSet(Ev.o.queued), self |-> MSet(Ev.self), mself |-> r1.self, out |-> Outs(Ev),
+                  due |-> (r1.alarm # -1 /\ now >= r1.alarm), first |-> "", ncerts |-> 0]
+  /\ up' = TRUE /\ hi' = PMax(hi, Ev.o.prog)
+  /\ UNCHANGED <<mf, store, head, now, wal, bootE>>
+TrLStep ==
+  /\ IsEvent("LStep")
+  /\ now' = Ev.now /\ head' = H(Ev.head) /\ store' = store \o MapC(Ev.certs)
+  /\ LET r1 == IF Ev.certs # <<>> THEN OnCert(rs, Latest(store'), store', head', now', mf) ELSE [rs EXCEPT !.replay = <<>>] IN
+       /\ rs' = [Settled(r1, now', Ev.o) EXCEPT !.self = FinalizeTrim(@, store')]
+       /\ obs' = [kind |-> "LStep", pre |-> rs, hib |-> hi, o |-> Ev.o, replay |-> MapM(Ev.replay), mreplay |-> r1.replay,
+                  queued |-> MSet(Ev.o.queued), out |-> Outs(Ev), due |-> (r1.alarm # -1 /\ now' >= r1.alarm),
+                  first |-> Ev.first, ncerts |-> Len(Ev.certs), back |-> (Ev.now < now)]
+  /\ hi' = PMax(hi, Ev.o.prog)
+  /\ UNCHANGED <<mf, up, wal, bootE>>
+TrLStop == /\ IsEvent("LStop") /\ up' = FALSE /\ rs' = Dead /\ obs' = [kind |-> "LStop", err |-> Ev.err]
+           /\ UNCHANGED <<mf, store, head, now, wal, bootE, hi>>
+
 TNext == TrTReset \/ TrRow \/ TrHReset \/ TrPut \/ TrBoot \/ TrCert \/ TrStartAt \/ TrTick \/ TrAlarm \/ TrBcast
-           \/ TrDeliver \/ TrCrash
+           \/ TrDeliver \/ TrCrash \/ TrLStart \/ TrLStep \/ TrLStop
 
 \* ------------------------------------------------------------------ clauses
-Has_o == obs.kind \in {"Cert", "StartAt", "Alarm", "Bcast", "Deliver"}
+Has_o == obs.kind \in {"Cert", "StartAt", "Alarm", "Bcast", "Deliver", "LStart", "LStep"}
+IsLoop == obs.kind \in {"LStart", "LStep"}
+\* the tipset finalized by the instance before i, as the node's store (now) tells it
+PrevEpoch(i) == IF i = mf.init THEN bootE ELSE IF Has(store, i - 1) THEN Get(store, i - 1).epoch ELSE -1
 IsStart == obs.kind \in {"Cert", "StartAt"}
 \* C15: "starts at the tipset finalized by the previous instance": after certificate i has been handed to the runner
 \* the participant works on max(current, i+1); it never goes back (not even across a restart over the same store);
@@ -138,11 +170,15 @@ C15_InstanceFollowsFinality ==
               /\ obs.o.prog >= obs.pre.cur
               /\ obs.o.prog >= obs.hib                           \* ... nor across a restart
   /\ obs.kind = "Cert" => obs.o.prog = PMax(obs.pre.cur, obs.cert.inst + 1)
-  /\ obs.kind \in {"Alarm", "Deliver"} => \A k \in DOMAIN obs.out : obs.out[k].inst >= obs.pre.fin + 1 /\ obs.out[k].inst >= mf.init
+  /\ obs.kind = "LStart" => obs.o.prog = (IF store = <<>> THEN mf.init ELSE Latest(store).inst + 1)
+  /\ (obs.kind = "LStep" /\ obs.ncerts > 0) => obs.o.prog = PMax(obs.pre.cur, Latest(store).inst + 1)
+  /\ obs.kind \in {"Alarm", "Deliver", "LStart", "LStep"} =>
+        \A k \in DOMAIN obs.out : obs.out[k].inst >= obs.pre.fin + 1 /\ obs.out[k].inst >= mf.init
+\* every proposal (QUALITY vote of round 0) the node asks to be signed has the tipset finalized by the previous instance as base
 C15_ProposalBaseIsFinalized ==
-  (obs.kind = "Alarm" /\ obs.begin /\ obs.out # <<>> /\ obs.out[1].phase = 1) =>
-     /\ obs.out[1].inst = obs.pre.cur
-     /\ obs.out[1].base = obs.prevEpoch
+  /\ obs.kind \in {"Alarm", "Deliver", "LStart", "LStep"} =>
+        \A k \in DOMAIN obs.out : (obs.out[k].phase = 1 /\ obs.out[k].round = 0) => obs.out[k].base = PrevEpoch(obs.out[k].inst)
+  /\ (obs.kind = "Alarm" /\ obs.begin /\ obs.out # <<>> /\ obs.out[1].phase = 1) => obs.out[1].inst = obs.pre.cur
 
 \* conformance with the reference
 ExpRow == NextStart(Get(store, obs.i), store, obs.head, obs.now, mf)
@@ -153,15 +189,23 @@ Conf_Progress == Has_o => (obs.o.prog = rs.cur /\ obs.o.begun = rs.inInst)
 Conf_Alarm == Has_o => ObsAlarm(obs.o) = rs.alarm
 Conf_Sched == (Has_o /\ up) => SchedOK(rs)
 \* (a certificate that is not ahead starts nothing; what is queued then is none of its business)
-Conf_ReplayThatInstance == (IsStart /\ obs.o.prog # obs.pre.cur) => (obs.queued = {rs.replay[k] : k \in DOMAIN rs.replay} /\ ReplayOK(rs))
+Conf_ReplayThatInstance ==
+  /\ (IsStart /\ obs.o.prog # obs.pre.cur) => (obs.queued = {rs.replay[k] : k \in DOMAIN rs.replay} /\ ReplayOK(rs))
+  /\ (obs.kind = "LStart" /\ ~obs.o.begun) => obs.queued = {obs.mreplay[k] : k \in DOMAIN obs.mreplay}
 \* (the WAL may hold the same vote twice - re-requested with the same signature after a restart; a repeated message
 \* is validated once, or twice if its justification differs: adjacent repetitions are dropped before comparing)
 RECURSIVE Dedup(_)
 Dedup(s) == IF Len(s) < 2 THEN s ELSE IF s[1] = s[2] THEN Dedup(Tail(s)) ELSE <<s[1]>> \o Dedup(Tail(s))
-Conf_ReplayOrder == IsStart => Dedup(obs.replay) = rs.replay
-Conf_Boot == obs.kind = "Boot" => (obs.self = rs.self /\ obs.o.prog = 0 /\ ~obs.o.alarm.armed /\ ~obs.o.begun)
+\* (while the loop runs, rebroadcasts of own votes pass the topic validator as well: only Start is judged there)
+Conf_ReplayOrder == /\ IsStart => Dedup(obs.replay) = rs.replay
+                    /\ obs.kind = "LStart" => Dedup(obs.replay) = obs.mreplay
+Conf_Boot == /\ obs.kind = "Boot" => (obs.self = rs.self /\ obs.o.prog = 0 /\ ~obs.o.alarm.armed /\ ~obs.o.begun)
+             /\ obs.kind = "LStart" => obs.self = rs.self
 Conf_SelfStore == obs.kind = "Bcast" => {obs.o.selfinsts[k] : k \in DOMAIN obs.o.selfinsts} = {m.inst : m \in rs.self}
-Conf_Begin == (obs.kind = "Alarm" /\ obs.begin /\ obs.err = "") => (obs.out # <<>> /\ obs.out[1].phase = 1 /\ obs.out[1].round = 0)
+Conf_Begin == /\ (obs.kind = "Alarm" /\ obs.begin /\ obs.err = "") => (obs.out # <<>> /\ obs.out[1].phase = 1 /\ obs.out[1].round = 0)
+              /\ IsLoop => (obs.o.begun => (obs.due \/ obs.pre.inInst))      \* nothing begins before its time
+\* host.go:195-210: a pending certificate or alarm is served before a pending message
+Conf_Priority == obs.kind = "LStep" => obs.first # "msg"
 Conf_Tick == (obs.kind = "Tick" /\ up /\ ~rs.inInst) =>
                (ObsAlarm(obs.o) = rs.alarm /\ (rs.alarm # -1 => (obs.o.alarm.fired <=> now >= rs.alarm)))
 \* the driver's environment stayed inside the model's assumptions
@@ -172,10 +216,12 @@ Conf_Env == /\ GapFree(store)
             /\ obs.kind = "Tick" => ~obs.back
             /\ obs.kind = "Alarm" => (obs.fired /\ obs.agree /\ (obs.dec => obs.cert.inst = obs.pre.cur))
             /\ obs.kind = "Deliver" => (obs.agree /\ (obs.dec => obs.cert.inst = obs.pre.cur))
+            /\ obs.kind = "LStep" => ~obs.back
+            /\ obs.kind = "LStop" => obs.err = ""
 
 Clauses == {"C15_InstanceFollowsFinality", "C15_ProposalBaseIsFinalized", "Conf_StartFormula", "Conf_StartAfterBase",
             "Conf_StartAlignment", "Conf_Progress", "Conf_Alarm", "Conf_Sched", "Conf_ReplayThatInstance", "Conf_ReplayOrder",
-            "Conf_Boot", "Conf_SelfStore", "Conf_Begin", "Conf_Tick", "Conf_Env"}
+            "Conf_Boot", "Conf_SelfStore", "Conf_Begin", "Conf_Tick", "Conf_Env", "Conf_Priority"}
 PropClauses == {"C15_InstanceFollowsFinality", "C15_ProposalBaseIsFinalized"}
 Holds(x) == CASE x = "C15_InstanceFollowsFinality" -> C15_InstanceFollowsFinality
               [] x = "C15_ProposalBaseIsFinalized" -> C15_ProposalBaseIsFinalized
@@ -184,7 +230,7 @@ Holds(x) == CASE x = "C15_InstanceFollowsFinality" -> C15_InstanceFollowsFinalit
               [] x = "Conf_Alarm" -> Conf_Alarm [] x = "Conf_Sched" -> Conf_Sched
               [] x = "Conf_ReplayThatInstance" -> Conf_ReplayThatInstance [] x = "Conf_ReplayOrder" -> Conf_ReplayOrder
               [] x = "Conf_Boot" -> Conf_Boot [] x = "Conf_SelfStore" -> Conf_SelfStore [] x = "Conf_Begin" -> Conf_Begin
-              [] x = "Conf_Tick" -> Conf_Tick [] x = "Conf_Env" -> Conf_Env
+              [] x = "Conf_Tick" -> Conf_Tick [] x = "Conf_Env" -> Conf_Env [] x = "Conf_Priority" -> Conf_Priority
 TStep == /\ TNext
          /\ LET nb == {x \in Clauses : ~(Holds(x))'} IN
               /\ bad' = bad \cup {<<l, x>> : x \in nb}
